@@ -31,6 +31,9 @@ type RunSpec struct {
 	NCerts   int
 	Comments []string
 	Validity uint64
+	// Multi: 0 = the real regular handler (one request); 2..3 = a harness handler whose single agent
+	// key (the repository's AgentKey) carries that many signing requests
+	Multi int
 }
 
 type Case struct {
@@ -60,6 +63,12 @@ func gen(t *rapid.T) Case {
 		}
 		if r.Validity == 0 {
 			r.Validity = rapid.Uint64Range(1, 315360000).Draw(t, l+"ValidityAny")
+		}
+		if rapid.IntRange(0, 3).Draw(t, l+"IsMulti") == 0 {
+			r.Multi = rapid.IntRange(2, 3).Draw(t, l+"Multi")
+			if r.Outcome == "noslot" {
+				r.Outcome = "caerr"
+			}
 		}
 		nc := rapid.IntRange(0, r.NCerts+1).Draw(t, l+"NComments")
 		for j := 0; j < nc; j++ {
@@ -132,7 +141,7 @@ func exec(c Case) (vh.Outcome, error) {
 	foreign := ringEntries(p)
 	addsBase := len(p.Adds())
 
-	var provisioned []string // certificates of the last successful run
+	provisioned := map[string][]string{} // per handler: certificates of its last successful run
 	successes, failAfterSuccess := 0, false
 	for ri, r := range c.Runs {
 		where := fmt.Sprintf("run %d (%s, %d certs, comments %q, validity %d)", ri, r.Outcome, r.NCerts, r.Comments, r.Validity)
@@ -148,6 +157,14 @@ func exec(c Case) (vh.Outcome, error) {
 		ca := &vh.FakeCA{Default: vh.CABehaviour{NCerts: r.NCerts, Comments: r.Comments}}
 		if r.Outcome == "caerr" {
 			ca.Default = vh.CABehaviour{Err: "verif: the CA is down"}
+			if r.Multi > 0 {
+				// the CA signs the earlier requests of the key and fails on the last one
+				ca.Script = nil
+				for j := 0; j < r.Multi-1; j++ {
+					ca.Script = append(ca.Script, vh.CABehaviour{NCerts: r.NCerts, Comments: r.Comments})
+				}
+				ca.Script = append(ca.Script, vh.CABehaviour{Err: "verif: the CA is down"})
+			}
 		}
 		if r.Outcome == "noauth" {
 			p.SetPlan([]vh.FaultRule{{Index: -1, Code: vh.CodeSign, Kind: "fail", Remaining: 1}})
@@ -158,14 +175,25 @@ func exec(c Case) (vh.Outcome, error) {
 		if derr != nil {
 			return out, nil
 		}
-		h, herr := regular.NewHandler(conf, conn)
-		if herr != nil {
-			conn.Close()
-			return out, vh.Errf("%s: NewHandler: %v", where, herr)
+		var h gensign.Handler
+		hname := "real"
+		checkValidity := r.Validity
+		if r.Multi > 0 {
+			hname, checkValidity = "multi", 3600
+			fh := &vh.FakeHandler{ID: "m0", Accept: r.Outcome != "noauth", Log: &vh.HandlerLog{}, Agent: agent.NewClient(conn), NKeys: 1, NReqs: r.Multi}
+			h = fh
+		} else {
+			rh, herr := regular.NewHandler(conf, conn)
+			if herr != nil {
+				conn.Close()
+				return out, vh.Errf("%s: NewHandler: %v", where, herr)
+			}
+			h = rh
 		}
 		param, _ := vh.BuildParam(vh.ParamSpec{LogName: "alice", Policy: "NONS", ReqUser: "alice", ReqHost: "laptop", ClientIP: "172.17.0.1", TransID: fmt.Sprintf("%010x", ri)})
 		before := ringEntries(p)
 		addsBefore := len(p.Adds())
+		_ = checkValidity
 		var runErr error
 		cr := vh.Catch(func() { runErr = gensign.Run(context.Background(), param, []gensign.Handler{h}, ca) })
 		conn.Close()
@@ -188,8 +216,8 @@ func exec(c Case) (vh.Outcome, error) {
 		}
 		// every identity the RA added carries a finite lifetime not shorter than the validity
 		for _, a := range adds {
-			if a.LifetimeSecs == 0 || uint64(a.LifetimeSecs) < r.Validity {
-				return out, vh.Errf("%s: an identity (comment %q, certificate: %v) was added with agent lifetime %d s for a validity of %d s", where, a.Comment, a.Certificate != nil, a.LifetimeSecs, r.Validity)
+			if a.LifetimeSecs == 0 || uint64(a.LifetimeSecs) < checkValidity {
+				return out, vh.Errf("%s: an identity (comment %q, certificate: %v) was added with agent lifetime %d s for a validity of %d s", where, a.Comment, a.Certificate != nil, a.LifetimeSecs, checkValidity)
 			}
 		}
 		if r.Outcome != "ok" {
@@ -208,15 +236,23 @@ func exec(c Case) (vh.Outcome, error) {
 			return out, vh.Errf("%s: Run failed: %v", where, runErr)
 		}
 		successes++
-		if ca.NCalls() != 1 || len(ca.Calls[0].Certs) != r.NCerts {
-			return out, vh.Errf("%s: %d CA calls", where, ca.NCalls())
+		wantCalls := 1
+		if r.Multi > 0 {
+			wantCalls = r.Multi
+		}
+		if ca.NCalls() != wantCalls {
+			return out, vh.Errf("%s: %d CA calls, expected %d", where, ca.NCalls(), wantCalls)
 		}
 		reqPub, _, _, _, _ := ssh.ParseAuthorizedKey([]byte(ca.Calls[0].Req.PublicKey))
 		if _, ok := has(after, string(reqPub.Marshal())); !ok {
 			return out, vh.Errf("%s: the new private key is not in the agent", where)
 		}
+		var allCerts []*ssh.Certificate
+		for _, call := range ca.Calls {
+			allCerts = append(allCerts, call.Certs...)
+		}
 		var now []string
-		for j, cert := range ca.Calls[0].Certs {
+		for j, cert := range allCerts {
 			blob := string(cert.Marshal())
 			now = append(now, blob)
 			if _, ok := has(after, blob); !ok {
@@ -232,18 +268,23 @@ func exec(c Case) (vh.Outcome, error) {
 			}
 		}
 		// certificates of the previous generation are gone
-		for _, old := range provisioned {
+		for _, old := range provisioned[hname] {
 			if _, ok := has(after, old); ok {
 				return out, vh.Errf("%s: a certificate provisioned by an earlier run is still in the agent (more than one generation)", where)
 			}
 		}
 		// nothing else appeared: certificates in the agent = foreign certificates + this generation
 		wantCerts := append(certSet(foreign), now...)
+		for other, certs := range provisioned {
+			if other != hname {
+				wantCerts = append(wantCerts, certs...)
+			}
+		}
 		sort.Strings(wantCerts)
 		if !equal(wantCerts, certSet(after)) {
 			return out, vh.Errf("%s: the agent holds %d certificates, expected %d (foreign + this run's)", where, len(certSet(after)), len(wantCerts))
 		}
-		provisioned = now
+		provisioned[hname] = now
 	}
 	_ = addsBase
 	_ = rand.Reader
@@ -264,7 +305,7 @@ func equal(a, b []string) bool {
 	return true
 }
 
-const rule = "histories against one recording keyring agent: 0..5 pre-existing identities (plain RSA / ECDSA / Ed25519 keys and foreign certificates whose comments are near-misses of the handler label: other case, truncation, '-' for '.', missing first letter, 'private-key', empty, non-ASCII; comments containing the exact handler name are not generated), then 1..6 runs of the real handler, each succeeding or failing {agent refuses the challenge, no key slot configured, CA error}, the CA returning 1..3 certificates with 0..n+1 comments (present / empty / containing the handler name), validity from {1, 2, 3599, 3600, 43200, 2^31, 315360000} or random in 1 s..10 y. Oracle after a successful run: the new private key and every returned certificate are listed, signing with each certificate yields a signature verifying under its key, every AddedKey the agent received has 0 < lifetime and lifetime >= validity, certificates of the earlier generation are absent, the certificate set is exactly foreign + this generation, every pre-existing identity is present with identical blob and comment; after a failing run the certificate set is unchanged. Non-trivial: >= 2 successful runs or a failure after a success, with >= 1 pre-existing identity."
+const rule = "histories against one recording keyring agent: 0..5 pre-existing identities (plain RSA / ECDSA / Ed25519 keys and foreign certificates whose comments are near-misses of the handler label: other case, truncation, '-' for '.', missing first letter, 'private-key', empty, non-ASCII; comments containing the exact handler name are not generated), then 1..6 runs - of the real handler, or (a quarter) of a harness handler whose one agent key (the repository's AgentKey) carries 2..3 signing requests - each succeeding or failing {agent refuses the challenge / handler rejects, no key slot configured, CA error - for several requests: on the last one, after the earlier ones were signed}, the CA returning 1..3 certificates with 0..n+1 comments (present / empty / containing the handler name), validity from {1, 2, 3599, 3600, 43200, 2^31, 315360000} or random in 1 s..10 y. Oracle after a successful run: the new private key and every returned certificate are listed, signing with each certificate yields a signature verifying under its key, every AddedKey the agent received has 0 < lifetime and lifetime >= validity, certificates of the earlier generation are absent, the certificate set is exactly foreign + this generation, every pre-existing identity is present with identical blob and comment; after a failing run the certificate set is unchanged. Non-trivial: >= 2 successful runs or a failure after a success, with >= 1 pre-existing identity."
 
 func TestC03Provision(t *testing.T) {
 	vh.Run(t, vh.Spec[Case]{Property: "C03", Name: "TestC03Provision", Rule: rule, Gen: gen, Exec: exec})
